@@ -80,6 +80,22 @@ pub fn gen_image_world(rng: &mut Rng, plan: &mut Plan, force: Option<(i64, bool,
     gen_probes(&mut rng.fork(), &info.surfaces, 4)
 }
 
+/// Appends a field of `pad` bytes to the feature of the unknown-word entry that is stored last in
+/// the image (the last row of the category with the highest id that has rows).
+fn lengthen_last_unk_feature(plan: &mut Plan, pad: usize) {
+    let Some(cats) = crate::scen_build::category_order(&plan.file_str("char.def")) else { return };
+    let unk = plan.file_str("unk.def");
+    let mut lines: Vec<String> = unk.lines().map(|l| l.to_string()).collect();
+    for c in cats.iter().rev() {
+        if let Some(i) = lines.iter().rposition(|l| l.starts_with(&format!("{c},"))) {
+            lines[i].push(',');
+            lines[i].push_str(&"z".repeat(pad));
+            plan.set_file("unk.def", lines.join("\n") + "\n");
+            return;
+        }
+    }
+}
+
 fn expect_rejected(
     oracle: &str,
     what: &str,
@@ -458,6 +474,83 @@ impl Scenario for ImageScenario {
                 combo.0, combo.1, combo.2, len, len
             )));
         }
+        // tail enumeration: many more images of different lengths, whose last unknown-word feature
+        // (the last thing in every image) is long; every strict prefix that ends inside the last
+        // ~6000 + feature-length bytes is read. Buffer- or block-boundary effects in readers and
+        // decoders depend on where the image ends relative to such boundaries.
+        let n_tail = match tier {
+            Tier::Quick => 96,
+            Tier::Thorough => 1500,
+        };
+        let next = AtomicU64::new(0);
+        let first_bad: std::sync::Mutex<Option<(u64, Plan, usize, usize, bool)>> = std::sync::Mutex::new(None);
+        let tail_points = AtomicU64::new(0);
+        std::thread::scope(|sc| {
+            for _ in 0..threads {
+                sc.spawn(|| loop {
+                    let i = next.fetch_add(1, Ordering::Relaxed);
+                    if i >= n_tail {
+                        break;
+                    }
+                    let mut rng = Rng::new(crate::rng::run_seed(seed, "C09-tail", i));
+                    let mut plan = Plan::new("C09", seed, u64::MAX - 10_000 - i);
+                    let _ = gen_image_world(&mut rng, &mut plan, None);
+                    plan.set_file("probes", "");
+                    let pad = match rng.below(4) {
+                        0 => rng.usize(64),
+                        _ => rng.usize(3900),
+                    };
+                    lengthen_last_unk_feature(&mut plan, pad);
+                    let mut ctx = Ctx::new(false);
+                    let Ok(dict) = reference_dict(&plan, &mut ctx) else { continue };
+                    let none = Fault::default();
+                    let (r, image) = write_image(&dict, &none, &mut ctx);
+                    if must("C09.write", "write", r).is_err() {
+                        continue;
+                    }
+                    let len = image.len();
+                    let start = len.saturating_sub(pad + 6000);
+                    for k in start..len {
+                        let r = catch(|| Dictionary::read(&image[..k]).is_ok());
+                        tail_points.fetch_add(1, Ordering::Relaxed);
+                        if !matches!(r, Ok(false)) {
+                            let mut g = first_bad.lock().unwrap();
+                            if g.as_ref().is_none_or(|b| i < b.0) {
+                                *g = Some((i, plan.clone(), k, len, r.is_err()));
+                            }
+                            break;
+                        }
+                    }
+                });
+            }
+        });
+        let pts = tail_points.load(Ordering::Relaxed);
+        rep.extra_evaluations += pts;
+        rep.extra_distinct += pts;
+        if let Some((_, mut p, k, len, panicked)) = first_bad.into_inner().unwrap() {
+            let mut f = (((k as u128) << 32) / len as u128) as i64;
+            while (((f as u128) * len as u128) >> 32) as usize != k {
+                f += 1;
+            }
+            p.ops = vec![Op::new("ReadPrefix").n(&[f])];
+            rep.extra_failure = Some((
+                p,
+                Violation::new(
+                    "C09.prefix",
+                    format!(
+                        "strict prefix of length {k} of a {len}-byte image {}",
+                        if panicked { "panics" } else { "is accepted (Ok)" }
+                    ),
+                ),
+            ));
+            return;
+        }
+        rep.extra.insert(
+            "tail_enumeration".into(),
+            crate::json::J::s(&format!(
+                "{n_tail} further seeded images with a last unknown-word feature of 0-3900 bytes: every strict prefix ending in the last 6000 + feature-length bytes read and rejected ({pts} reads)"
+            )),
+        );
         rep.exhaustive = Some(true);
         rep.extra.insert("enumerated_images".into(), crate::json::J::Arr(image_info));
         rep.extra.insert(
